@@ -564,6 +564,8 @@ class Resolver:
             if q in self.m.classes:
                 return ("ctor", q)
             head = txt.split(".")[0]
+            if head in ("bytes", "bytearray", "str", "int", "dict", "list") and head not in env:
+                return ("builtin", txt, None)
             if head in self.m.modules[fi.module].imports and self.m.modules[fi.module].imports[head] == head or head in ("re", "struct", "base64", "dataclasses", "enum", "int", "object", "t", "typing"):
                 return ("builtin", txt, None)
             return ("unknown", norm(e))
